@@ -44,7 +44,7 @@ def draw_config(rng, mode="bounded", allow_restart=False, faults=True):
          "finish": rng.choice([1, 3]), "yield": rng.choice([0, 0, 1])}
     opt = {"kill": [0, 1, 2], "disconnect": [0, 1, 3], "reconnect": [0, 1], "wait": [0, 1, 2],
            "addwait": [0, 0, 1], "setinfo": [0, 1], "info": [0, 1, 2], "stats": [0, 1],
-           "adv": [0, 1, 2], "tick": [0, 1, 2], "jump": [0, 1], "restart": [0, 0, 1]}
+           "adv": [0, 1, 2], "tick": [0, 1, 2], "jump": [0, 1], "restart": [0, 0, 1], "drop": [0, 0, 1]}
     for k, choices in opt.items():
         w[k] = rng.choice(choices)
     if not faults:
@@ -203,12 +203,12 @@ class QsRun:
         deadc = [n for n in allc if not sim.is_live(n)]
         inflight = bool(model.inflight_possible)
         if not sendable:
-            for k in ("add", "pull", "finish", "kill", "wait", "addwait", "setinfo", "info", "stats"):
+            for k in ("add", "pull", "finish", "kill", "wait", "addwait", "setinfo", "info", "stats", "drop"):
                 w[k] = 0
         if not self._sendable(c.workers):
             w["pull"] = 0
         if not model.jobs:
-            for k in ("finish", "kill", "wait", "setinfo", "info"):
+            for k in ("finish", "kill", "wait", "setinfo", "info", "drop"):
                 w[k] = 0
         if not live:
             w["disconnect"] = 0
@@ -339,6 +339,9 @@ class QsRun:
             name = rng.choice(sendable)
             jid = self._known_id()
         return ["send", name, "qsetinfo", {"jobid": jid, "info": {rng.choice(["status", "progress"]): rng.randrange(100)}}]
+
+    def g_drop(self, sendable, live, deadc):
+        return ["send", self.rng.choice(sendable), "qdrop", {"jobids": [self._known_id()]}]
 
     def g_info(self, sendable, live, deadc):
         return ["send", self.rng.choice(sendable), "qinfo", {"jobid": self._known_id()}]
